@@ -6,14 +6,14 @@
 set -u
 PATCH=$1; LABEL=$2; shift 2
 PROPS=${@:-"C01 C02 C03 C04 C05 C06 C07 C08 C09 C10 C11 C12 C13 C14 C15 C16 C17 C18 C19 C20"}
-EVAL=/tmp/mut/eval
+EVAL=${SEED_EVAL:-/tmp/mut/eval}
 RESULTS=${SEED_RESULTS:-/tmp/mut/results3.tsv}
-COPY=/tmp/verif_eval
+COPY=${SEED_COPY:-/tmp/verif_eval}
 if [ ! -d $EVAL ]; then git -C /repo worktree add --detach $EVAL HEAD -q; fi
 if [ ! -d $COPY ]; then
   mkdir -p $COPY
   rsync -a --exclude .git --exclude .scratch --exclude replays --exclude evidence /verif/ $COPY/
-  sed -i 's#path = "/repo"#path = "/tmp/mut/eval"#' $COPY/harness/Cargo.toml
+  sed -i "s#path = \"/repo\"#path = \"$EVAL\"#" $COPY/harness/Cargo.toml
   mkdir -p $COPY/evidence
 fi
 # keep the copy's machinery in sync with /verif (sources only)
